@@ -392,7 +392,8 @@ class KnownFinding:
 
     def matches(self, h, label):
         import fnmatch
-        if not fnmatch.fnmatch(h.name, self.harness):
+        pats = self.harness if isinstance(self.harness, list) else [self.harness]
+        if not any(h.name == p or fnmatch.fnmatch(h.name, p.replace('[', '[[]')) for p in pats):
             return False
         if self.label and not fnmatch.fnmatch(label, self.label):
             return False
@@ -401,13 +402,20 @@ class KnownFinding:
 
     def region(self, inp, out):
         env = dict(inp=inp, out=out, P=self._hp or {}, And=core.sym_and, Or=core.sym_or,
-                   Not=core.sym_not, ite=core.ite)
+                   Not=core.sym_not, ite=core.ite, dual_range=dual_range)
         if isinstance(inp, dict):
             env.update({k: v for k, v in inp.items() if isinstance(k, str)})
         if self._hp:
             env.update({k: v for k, v in self._hp.items() if isinstance(k, str) and k not in env})
         return eval(self.expr, {"__builtins__": {"abs": abs, "len": len, "min": min, "max": max,
                                                   "True": True, "False": False}}, env)
+
+
+def dual_range(v1, v2, kmax=64):
+    """v1 < 0 <= v2 are the signed and the unsigned reading of one k-bit pattern:
+    v2 - v1 == 2**k and -2**(k-1) <= v1 < 0 (hence 2**(k-1) <= v2 < 2**k) for some k"""
+    return core.sym_or(*[core.sym_and(v2 - v1 == (1 << k), v1 >= -(1 << (k - 1)), v1 < 0)
+                         for k in range(1, kmax + 1)])
 
 
 def load_known(path, prop):
